@@ -177,7 +177,8 @@ structure Param (V : Type) where
   persistent : Bool       -- flag `on` or `auto`
   auto : Bool             -- flag `auto`: saved by a callback on every change
   given : Bool            -- a value was given in the configuration (or as Parameter argument)
-  hasWrite : Bool         -- `hasattr(self, 'write_' + pname)`
+  hasWrite : Bool         -- `hasattr(self, 'write_' + pname)`: every writable parameter has the generated wrapper
+  driver : Bool           -- the class defines a write method of its own (its calls are the driver write log)
   value : V
 
 def findParam {V : Type} (ps : List (Param V)) (name : String) : Option (Param V) :=
@@ -285,6 +286,9 @@ def writeInitLoop (env : Env P N V) : List String → MState N V → Option Faul
       let hw := match findParam ms.params k with
         | some p => p.hasWrite
         | none => false
+      let drv := match findParam ms.params k with
+        | some p => p.driver
+        | none => false
       -- with a write method: validate, call it, announce what it returned; a rejected value is only logged
       let wv := if hw then env.wval k v else some v
       let o := match wv with
@@ -292,7 +296,7 @@ def writeInitLoop (env : Env P N V) : List String → MState N V → Option Faul
         | none => ⟨ms1, [], [], false⟩
       let r := writeInitLoop env ks o.ms (restFault o.evs fault)
       ⟨r.ms, o.evs ++ r.evs, (match wv with
-        | some v' => if hw then [(k, v')] else []
+        | some v' => if hw && drv then [(k, v')] else []
         | none => []) ++ r.writes, false⟩
 
 def writeInit (env : Env P N V) (ms : MState N V) (fault : Option Fault) : StepOut P N V :=
